@@ -156,6 +156,11 @@ impl Kind {
 	fn is_sub_track(self) -> bool {
 		matches!(self, Kind::SubTrack | Kind::SubTrackNested | Kind::SubTrackSpatial | Kind::SubTrackOfSpatial | Kind::SubTrackOrphan)
 	}
+	/// the resources of this kind are kira's own and have a handle through which they can be given something
+	/// to do (`Op::Busy`); the probe kinds (user modulators, probe sounds) have no such handle
+	fn has_activity(self) -> bool {
+		matches!(self, Kind::ModBuiltin | Kind::Clock | Kind::Listener | Kind::SendTrack) || self.is_sub_track()
+	}
 	/// how a creation of this kind can fail, as the code orders things (table in C08/Model.v):
 	/// (late, built) = (the user code that fails runs AFTER try_reserve, a payload had been built)
 	fn fail_shape(self) -> Option<(bool, bool)> {
@@ -207,6 +212,12 @@ enum Op {
 	Parent(u8),
 	/// drop the handle of the track that owns the storage (the storage lives on)
 	Abandon,
+	/// give resource `p` (through its handle, which still exists) something to do that outlasts the history
+	/// or waits for ever: `what % 4` = 0 a 60 s tween, 1 a tween that starts in 60 s, 2 a tween that starts at a
+	/// clock time that never comes, 3 a tween that is over within one callback (`Kind::has_activity`; what is
+	/// tweened depends on the kind, see `World::busy`).  Nothing to do with the storage: the resource is
+	/// removed at the callback after its handle is dropped WHATEVER it is doing at that moment
+	Busy(usize, u8),
 }
 fn ops_term_of(kind: Kind, ops: &[Op]) -> String {
 	let (late, built) = kind.fail_shape().unwrap_or((false, false));
@@ -218,6 +229,7 @@ fn ops_term_of(kind: Kind, ops: &[Op]) -> String {
 			Op::CreateFailing => format!("OCreateFailing {late} {built}"),
 			Op::Parent(w) => format!("OParent {w}"),
 			Op::Abandon => "OAbandon".to_string(),
+			Op::Busy(p, w) => format!("OBusy {p} {w}"),
 		})
 		.collect::<Vec<_>>()
 		.join("; ")
@@ -620,7 +632,8 @@ impl World {
 		let mut parent = None;
 		let mut parent_sp = None;
 		let mut listener = None;
-		let idle_clock = if kind.has_parent() { Some(mgr.add_clock(ClockSpeed::TicksPerSecond(1.0)).expect("aux clock")) } else { None };
+		// (the clock storage under test holds nothing but the clocks of the history: Kind::Clock has no aux clock)
+		let idle_clock = if kind.has_parent() || (kind.has_activity() && kind != Kind::Clock) { Some(mgr.add_clock(ClockSpeed::TicksPerSecond(1.0)).expect("aux clock")) } else { None };
 		if matches!(kind, Kind::SoundSpatial | Kind::SubTrackNested | Kind::SubTrackSpatial | Kind::SubTrackOfSpatial | Kind::SubTrackOrphan) {
 			listener = Some(mgr.add_listener(zero3(), quat_id()).expect("aux listener"));
 		}
@@ -975,6 +988,112 @@ impl World {
 		}
 	}
 
+	/// give resource `p` something to do through its handle (`Op::Busy`); every choice leaves the other
+	/// observables alone (a tweener moves from its own value to its own value, an LFO of amplitude 0 changes its
+	/// frequency, …).  Returns false if the handle is gone (invalid history)
+	fn busy(&mut self, p: usize, what: u8) -> bool {
+		use std::time::Duration;
+		let long = Duration::from_secs(60);
+		let short = Duration::from_millis(10);
+		let own = 1000.0 + p as f64;
+		let never = match (self.kind, self.idle_clock.as_ref()) {
+			(_, Some(c)) => ClockTime { clock: c.id(), ticks: 1, fraction: 0.0 },
+			// clocks: a time of the clock itself that is ages away (and never comes while it is stopped)
+			_ => match self.clocks.iter().find(|(pid, h)| *pid == p && h.is_some()) {
+				Some((_, Some(h))) => ClockTime { clock: h.id(), ticks: 1 << 40, fraction: 0.0 },
+				_ => return false,
+			},
+		};
+		let tween = match what % 4 {
+			0 => Tween { duration: long, ..Default::default() },
+			1 => Tween { start_time: kira::StartTime::Delayed(long), duration: short, ..Default::default() },
+			2 => Tween { start_time: kira::StartTime::ClockTime(never), duration: short, ..Default::default() },
+			// 2 ms: over within the next callback (4 frames at 1 kHz)
+			_ => Tween { duration: Duration::from_millis(2), ..Default::default() },
+		};
+		let alt = what >= 4;
+		for (pid, h) in self.builtin.iter_mut() {
+			if *pid == p {
+				match h {
+					Some(BuiltinMod::Tweener(t)) => t.set(own, tween),
+					Some(BuiltinMod::Lfo(l)) => {
+						if alt {
+							l.set_amplitude(0.0, tween)
+						} else {
+							l.set_frequency(3.0, tween)
+						}
+					}
+					None => return false,
+				}
+				return true;
+			}
+		}
+		for (pid, h) in self.clocks.iter_mut() {
+			if *pid == p {
+				match h {
+					Some(c) => {
+						if alt {
+							c.start();
+						}
+						c.set_speed(ClockSpeed::TicksPerSecond(2.0), tween);
+					}
+					None => return false,
+				}
+				return true;
+			}
+		}
+		for (pid, h) in self.listeners.iter_mut() {
+			if *pid == p {
+				match h {
+					Some(l) => {
+						if alt {
+							l.set_orientation(mint::Quaternion { v: mint::Vector3 { x: 0.0, y: 1.0, z: 0.0 }, s: 0.0 }, tween)
+						} else {
+							l.set_position(mint::Vector3 { x: 1.0, y: 2.0, z: 3.0 }, tween)
+						}
+					}
+					None => return false,
+				}
+				return true;
+			}
+		}
+		for (pid, h) in self.tracks.iter_mut() {
+			if *pid == p {
+				// a fade-out that takes a minute / a volume change / paused and waiting for a time that never comes
+				match h {
+					Some(AnyTrack::Plain(t)) => match (alt, what % 4) {
+						(false, _) => t.pause(tween),
+						(true, 2) => {
+							t.pause(Tween { duration: Duration::ZERO, ..Default::default() });
+							t.resume_at(kira::StartTime::ClockTime(never), Tween { duration: short, ..Default::default() });
+						}
+						(true, _) => t.set_volume(Decibels(-6.0), tween),
+					},
+					Some(AnyTrack::Spatial(t)) => match (alt, what % 4) {
+						(false, _) => t.pause(tween),
+						(true, 2) => {
+							t.pause(Tween { duration: Duration::ZERO, ..Default::default() });
+							t.resume_at(kira::StartTime::ClockTime(never), Tween { duration: short, ..Default::default() });
+						}
+						(true, _) => t.set_position(mint::Vector3 { x: 1.0, y: 2.0, z: 3.0 }, tween),
+					},
+					None => return false,
+				}
+				return true;
+			}
+		}
+		for (pid, h) in self.sends.iter_mut() {
+			if *pid == p {
+				match h {
+					Some(t) => t.set_volume(Decibels(-6.0), tween),
+					None => return false,
+				}
+				return true;
+			}
+		}
+		false
+	}
+
 	/// drop the handle of the track that owns the storage
 	fn abandon(&mut self) {
 		drop(self.parent.take());
@@ -1240,6 +1359,9 @@ struct HistOut {
 /// failing creation attempts / of these: user code that unwound with the key reserved and lost the slot
 static FAILED_CREATIONS: AtomicUsize = AtomicUsize::new(0);
 static LATE_LEAKS: AtomicUsize = AtomicUsize::new(0);
+/// resources whose handle was dropped after they had been given something to do (`Op::Busy`)
+static BUSY_DROPS: AtomicUsize = AtomicUsize::new(0);
+const BUSY_LEGEND: &str = "OBusy p w = through the handle of p, w % 4 = 0: a 60 s tween, 1: a tween starting in 60 s, 2: a tween starting at a clock time that never comes, 3: a 2 ms tween; tweeners: set(own value), LFOs: frequency / amplitude, clocks: speed (w >= 4: started first), listeners: position / orientation, tracks: pause with that fade (w >= 4: volume / position, 6: paused and resume_at never), send tracks: volume";
 
 fn run_history(kind: Kind, cap: usize, ops: &[Op]) -> HistOut {
 	run_history_f(kind, cap, ops, None)
@@ -1272,6 +1394,8 @@ fn run_history_f(kind: Kind, cap: usize, ops: &[Op], flavour: Option<usize>) -> 
 	let mut len_ok = has(M_LEN);
 	let mut abandoned = false;
 	let mut keys_seen: HashSet<(i128, i128)> = HashSet::new();
+	// what each resource was last given to do through its handle (`Op::Busy`), for the messages
+	let mut busy: std::collections::BTreeMap<usize, u8> = Default::default();
 	// per id (creation order): has resolved once / has stopped resolving after that
 	let mut resolved_once: Vec<bool> = vec![];
 	let mut stopped: Vec<bool> = vec![];
@@ -1396,6 +1520,16 @@ fn run_history_f(kind: Kind, cap: usize, ops: &[Op], flavour: Option<usize>) -> 
 				w.abandon();
 				abandoned = true;
 				len_ok = false;
+				continue;
+			}
+			Op::Busy(p, what) => {
+				// nothing to do with the storage: no observable, nothing may change (in particular not WHEN
+				// the resource goes once its handle is dropped)
+				if !kind.has_activity() || !w.busy(p, what) {
+					flag(i, "invalid history: OBusy on a resource that has no handle (any more)".to_string());
+					break;
+				}
+				busy.insert(p, what);
 				continue;
 			}
 			Op::Mark(p) => {
@@ -1566,7 +1700,17 @@ fn run_history_f(kind: Kind, cap: usize, ops: &[Op], flavour: Option<usize>) -> 
 			}
 		}
 	}
-	let nontrivial = rf.nontrivial() || abandoned;
+	if let Some(f) = fail.as_mut() {
+		let b: Vec<String> = rf.res.iter().filter(|r| r.marked).filter_map(|r| busy.get(&r.pid).map(|w| format!("payload {}: {}", r.pid, busy_desc(kind, r.pid, *w)))).collect();
+		if !b.is_empty() {
+			f.push_str(&format!(
+				" [given something to do through its handle before the handle was dropped — {} — a dropped resource is removed at the next callback whatever it is doing at that moment]",
+				b.join("; ")
+			));
+		}
+	}
+	let nontrivial = rf.nontrivial() || abandoned || busy.keys().any(|p| rf.res.iter().any(|r| r.pid == *p && r.st == RState::Removed));
+	BUSY_DROPS.fetch_add(rf.res.iter().filter(|r| r.marked && busy.contains_key(&r.pid)).count(), Ordering::SeqCst);
 	FAILED_CREATIONS.fetch_add(rf.failed_n, Ordering::SeqCst);
 	LATE_LEAKS.fetch_add(rf.leaked, Ordering::SeqCst);
 	drop(w);
@@ -1576,6 +1720,24 @@ fn run_history_f(kind: Kind, cap: usize, ops: &[Op], flavour: Option<usize>) -> 
 // ------------------------------------------------------------------------------------------------
 // generators
 // ------------------------------------------------------------------------------------------------
+
+/// what `World::busy(p, w)` does to payload `p` of `kind`, in words
+fn busy_desc(kind: Kind, p: usize, w: u8) -> String {
+	let tween = ["a tween of 60 s", "a 10 ms tween that starts in 60 s", "a 10 ms tween that starts at a clock time that never comes", "a tween of 2 ms"][(w % 4) as usize];
+	let alt = w >= 4;
+	match kind {
+		Kind::ModBuiltin if p % 2 == 0 => format!("TweenerHandle::set(its own value, {tween})"),
+		Kind::ModBuiltin => format!("LfoHandle::set_{}(.., {tween})", if alt { "amplitude" } else { "frequency" }),
+		Kind::Clock => format!("ClockHandle::{}set_speed(2 ticks/s, {tween})", if alt { "start(); " } else { "" }),
+		Kind::Listener => format!("ListenerHandle::set_{}(.., {tween})", if alt { "orientation" } else { "position" }),
+		Kind::SendTrack => format!("SendTrackHandle::set_volume(-6 dB, {tween})"),
+		_ => match (alt, w % 4) {
+			(false, _) => format!("track handle pause({tween})"),
+			(true, 2) => "track handle pause(instantly); resume_at(a clock time that never comes)".to_string(),
+			(true, _) => format!("track handle set_volume / set_position(.., {tween})"),
+		},
+	}
+}
 
 /// builds a history whose `Mark` operations are valid w.r.t. the reference bookkeeping
 struct Gen {
@@ -1635,6 +1797,30 @@ impl Gen {
 	fn mark_oldest(&mut self) {
 		if let Some(p) = self.rf.markable().first().copied() {
 			self.mark(p);
+		}
+	}
+	/// give `p` something to do through its handle (kinds that have one; the handle must still exist)
+	fn busy(&mut self, p: usize, what: u8) {
+		if self.kind.has_activity() && self.rf.markable().contains(&p) {
+			self.ops.push(Op::Busy(p, what));
+		}
+	}
+	fn busy_newest(&mut self, what: u8) {
+		if let Some(p) = self.rf.markable().last().copied() {
+			self.busy(p, what);
+		}
+	}
+	fn busy_all(&mut self, what: u8) {
+		for p in self.rf.markable() {
+			self.busy(p, what);
+		}
+	}
+	fn busy_random(&mut self, r: &mut Rng) {
+		let m = self.rf.markable();
+		if !m.is_empty() {
+			let p = *r.pick(&m);
+			let w = r.below(8) as u8;
+			self.busy(p, w);
 		}
 	}
 	fn mark_newest(&mut self) {
@@ -1721,6 +1907,78 @@ fn enumerate(kind: Kind, cap: usize, len: usize, with_failures: bool) -> Vec<Vec
 	out
 }
 
+/// all histories of exactly `len` operations over {Create, Callback, Mark oldest, Mark newest, Busy newest,
+/// Busy oldest} (activity `what`) in which some resource is made busy, then sees a callback, then loses its
+/// handle, then sees another callback — the histories in which "whatever it is doing" has a meaning
+fn enumerate_busy(kind: Kind, cap: usize, len: usize, what: u8) -> Vec<Vec<Op>> {
+	fn relevant(ops: &[Op]) -> bool {
+		for (i, o) in ops.iter().enumerate() {
+			if let Op::Busy(p, _) = o {
+				let cb = ops[i..].iter().position(|x| *x == Op::Callback).map(|k| i + k);
+				if let Some(c) = cb {
+					if let Some(m) = ops[c..].iter().position(|x| *x == Op::Mark(*p)).map(|k| c + k) {
+						if ops[m..].contains(&Op::Callback) {
+							return true;
+						}
+					}
+				}
+			}
+		}
+		false
+	}
+	fn go(rf: &RefSim, ops: &mut Vec<Op>, len: usize, what: u8, out: &mut Vec<Vec<Op>>) {
+		if ops.len() == len {
+			if relevant(ops) {
+				out.push(ops.clone());
+			}
+			return;
+		}
+		// at least Busy, Callback, Mark, Callback have to fit in
+		{
+			let mut r2 = rf.clone();
+			r2.create();
+			ops.push(Op::Create);
+			go(&r2, ops, len, what, out);
+			ops.pop();
+		}
+		{
+			let mut r2 = rf.clone();
+			r2.callback();
+			ops.push(Op::Callback);
+			go(&r2, ops, len, what, out);
+			ops.pop();
+		}
+		let m = rf.markable();
+		let mut targets: Vec<usize> = vec![];
+		if let Some(p) = m.first() {
+			targets.push(*p);
+		}
+		if let Some(p) = m.last() {
+			if !targets.contains(p) {
+				targets.push(*p);
+			}
+		}
+		for p in targets {
+			let mut r2 = rf.clone();
+			r2.mark(p);
+			ops.push(Op::Mark(p));
+			go(&r2, ops, len, what, out);
+			ops.pop();
+			// one activity per resource is enough
+			if !ops.iter().any(|o| matches!(o, Op::Busy(q, _) if *q == p)) {
+				ops.push(Op::Busy(p, what));
+				go(rf, ops, len, what, out);
+				ops.pop();
+			}
+		}
+	}
+	let mut out = vec![];
+	if kind.has_activity() {
+		go(&RefSim::new(kind, cap), &mut vec![], len, what, &mut out);
+	}
+	out
+}
+
 /// every history "prefix; OAbandon; tail": prefix = an enumerated history of at most `l1` operations, tail =
 /// every sequence of exactly `l2` operations over {Callback, Mark oldest, Mark newest} (no creation is
 /// possible once the owner's handle is gone)
@@ -1797,6 +2055,19 @@ fn gen_random(r: &mut Rng, kind: Kind, cap: usize) -> Vec<Op> {
 				0 | 1 | 2 => g.parent(0),
 				3 | 4 => g.parent(1),
 				_ => g.parent(2),
+			}
+			if r.chance(2, 3) {
+				g.callback();
+			}
+		}
+		if kind.has_activity() && r.chance(1, 4) {
+			// a resource is given something to do that outlasts the history (or a callback): when it goes
+			// once its handle is dropped must not depend on it
+			if r.chance(1, 4) {
+				let w = r.below(8) as u8;
+				g.busy_all(w);
+			} else {
+				g.busy_random(r);
 			}
 			if r.chance(2, 3) {
 				g.callback();
@@ -1959,6 +2230,83 @@ fn gen_boundary(kind: Kind, cap: usize) -> Vec<Vec<Op>> {
 			g.create();
 			g.mark_newest();
 			g.callback();
+			g.callback();
+			g.create();
+			g.callback();
+			out.push(g.ops);
+		}
+	}
+	if kind.has_activity() {
+		// seeded/C08-dropped-tweener-waits-for-its-tween/demo.rs: the handle is dropped while the resource is in
+		// the middle of something (every activity of World::busy); it is gone at the next callback and the
+		// slot can be used again
+		for w in 0u8..8 {
+			let mut g = Gen::new(kind, cap);
+			if !big {
+				g.fill();
+			} else {
+				g.create();
+				g.create();
+			}
+			g.callback();
+			g.busy_all(w);
+			g.callback();
+			g.mark_all();
+			g.callback();
+			if !big {
+				g.fill();
+			}
+			g.create();
+			g.callback();
+			out.push(g.ops);
+		}
+		// … round after round (waiting for a time that never comes, every such resource would hold its slot for
+		// ever: demo.rs, third test), with further callbacks in between
+		for w in [2u8, 0, 6, 1] {
+			let mut g = Gen::new(kind, cap);
+			for _ in 0..3 {
+				if !big {
+					g.fill();
+				} else {
+					g.create();
+					g.create();
+				}
+				g.create();
+				g.callback();
+				g.busy_all(w);
+				g.callback();
+				g.callback();
+				g.mark_all();
+				g.callback();
+				g.callback();
+			}
+			g.create();
+			g.callback();
+			out.push(g.ops);
+		}
+		// the command is written and the handle dropped before any callback reads it (demo.rs, first test); the
+		// command reaches a resource that is still queued; the activity starts on one resource while another
+		// one goes
+		for w in [0u8, 2, 5, 3] {
+			let mut g = Gen::new(kind, cap);
+			g.create();
+			g.callback();
+			g.busy_newest(w);
+			g.mark_newest();
+			g.callback();
+			g.create();
+			g.busy_newest(w);
+			g.callback();
+			g.callback();
+			g.mark_newest();
+			g.callback();
+			g.create();
+			g.create();
+			g.callback();
+			g.busy_newest(w);
+			g.mark_oldest();
+			g.callback();
+			g.mark_all();
 			g.callback();
 			g.create();
 			g.callback();
@@ -2780,6 +3128,12 @@ fn parse_ops(s: &str) -> Vec<Op> {
 				Some(Op::Abandon)
 			} else if let Some(w) = t.strip_prefix("OParent") {
 				w.trim().parse().ok().map(Op::Parent)
+			} else if let Some(a) = t.strip_prefix("OBusy") {
+				let mut it = a.split_whitespace();
+				match (it.next().and_then(|x| x.parse().ok()), it.next().and_then(|x| x.parse().ok())) {
+					(Some(p), Some(w)) => Some(Op::Busy(p, w)),
+					_ => None,
+				}
 			} else if let Some(p) = t.strip_prefix("OMark") {
 				p.trim().parse().ok().map(Op::Mark)
 			} else {
@@ -2871,6 +3225,15 @@ pub fn run(args: &Args) {
 			let (l1, l2) = if args.thorough { (4, 4) } else { (3, 3) };
 			for cap in [1usize, 2] {
 				for ops in enumerate_abandon(kind, cap, l1, l2) {
+					emit(&mut s, &mut seen, kind, cap, &ops);
+				}
+			}
+		}
+		// (a4) exhaustive, with a resource that is busy when its handle is dropped
+		if kind.has_activity() {
+			let lb = 6 + if args.thorough { 1 } else { 0 };
+			for (cap, what) in [(1usize, 0u8), (1, 2), (2, 6)] {
+				for ops in enumerate_busy(kind, cap, lb, what) {
 					emit(&mut s, &mut seen, kind, cap, &ops);
 				}
 			}
@@ -3003,6 +3366,10 @@ pub fn run(args: &Args) {
 		"failing creations in the histories: {}; of these {} were user code unwinding with the key already reserved (a panicking ModulatorBuilder::build, a send-track effect whose init panics): the unchanged code loses the slot for good (num_* counts it, capacity shrinks), exactly as the model's X_fail_late predicts (theorem reserve_then_fail_refuted); compared with the model, not raised as a violation",
 		FAILED_CREATIONS.load(Ordering::SeqCst),
 		LATE_LEAKS.load(Ordering::SeqCst)
+	));
+	s.notes.push(format!(
+		"resources whose handle was dropped after they had been given something to do through it ({BUSY_LEGEND}): {}; all of them had to be gone at the callback after the drop like any other (model: OBusy is no step)",
+		BUSY_DROPS.load(Ordering::SeqCst)
 	));
 	s.notes.push(format!("harness time {:.1}s", t0.elapsed().as_secs_f64()));
 	s.finish();
